@@ -180,7 +180,7 @@ func firstDiff(a, b digest) string {
 
 // genC18 generates a history by running it (replay #0) and recording raw transactions.
 func genC18(rt *rapid.T, minTx int) (*c18case, *sim.World) {
-	gs := sim.DrawGenesis(rt, sim.GenOpts{ManyEntries: true, UsedInGen: true, MaxAtt: 6, BigBalances: true})
+	gs := sim.DrawGenesis(rt, sim.GenOpts{ManyEntries: true, UsedInGen: true, MaxAtt: 6, BigBalances: true, AbsentOpt: true, CaseLimits: true})
 	w, err := sim.NewWorld(gs)
 	if err != nil {
 		rt.Fatalf("HARNESS %v", err)
